@@ -177,8 +177,11 @@ def H_buffer(ctx, cfg):
                 ctx.fail(f"{variant}-preserve={preserve}-raised", detail=f"{type(exc).__name__}: {exc}", exc=repr(exc)[:200])
                 continue
             if preserve or variant == "readonly":
-                same = all(a is b for a, b in zip(before, base.a.ravel()))
-                ctx.prove(same, f"{variant}-input-not-modified")
+                conds = []
+                for a, b in zip(before, base.a.ravel()):
+                    c = True if a is b else elem_eq(a, b)
+                    conds.append(z3.BoolVal(bool(c)) if isinstance(c, bool) or c is None else c)
+                ctx.prove(z3.And(conds), f"{variant}-input-not-modified")
             out = list(res.a.ravel())
             ctx.prove(res.shape == arr.shape, "shape")
             for j, k in enumerate(idx):
